@@ -15,6 +15,9 @@ extern unsigned g_json_version, g_json_mutations, g_json_loads_flags, g_json_dum
 /* a valid model object node */
 #define VJ_IS_OBJECT(p) (__CPROVER_is_fresh(p, sizeof(vj_t)) && VJ(p)->type == JSON_OBJECT && \
 			 VJ(p)->refcount >= 1 && VJ(p)->refcount < 1000)
+/* a valid parsed document: object or array (arrays have no members we track) */
+#define VJ_IS_DOC(p) (__CPROVER_is_fresh(p, sizeof(vj_t)) && (VJ(p)->type == JSON_OBJECT || VJ(p)->type == JSON_ARRAY) && \
+		      VJ(p)->refcount >= 1 && VJ(p)->refcount < 1000 && (VJ(p)->type == JSON_OBJECT || VJ(p)->tracked == NULL))
 /* ... whose tracked member is absent or a valid node of any type; LEN is the
  * ghost variable holding the length of the member's string value */
 #define VJ_TRACKED_OK(p, LEN) (VJ(p)->tracked == NULL || \
